@@ -247,6 +247,29 @@ def check_apply(inp):
     return None
 
 
+def check_window(inp):
+    """apply_to_melody(start=, end=) on a window aligned with the tatum grid (what ScoreRhythm asks for each chord,
+    possibly spanning several cycles of the grid): the result lasts end - start and is the prescribed melody of the
+    grid read cyclically over the window (seed C17-6 read the window in 'the grid followed by itself')"""
+    from musiclang import Melody
+    m = mk_metric(inp)
+    src = mk_notes(inp['notes'])
+    s0, e0, t = F(inp['start']), F(inp['end']), F(inp['tatum'])
+    if (s0 / t).denominator != 1 or (e0 / t).denominator != 1 or e0 <= s0 or s0 < 0:
+        return None
+    n = len(inp['array'])
+    virt = dict(inp, array=[inp['array'][i % n] for i in range(int(s0 / t), int(e0 / t))])
+    if sum(virt['array']) == 0:
+        return None
+    out = m.apply_to_melody(Melody(mk_notes(inp['notes'])), start=s0, end=e0)
+    if out.duration != e0 - s0:
+        return {'aspect': 'window-duration', 'observed': frac_str(out.duration), 'expected': frac_str(e0 - s0)}
+    r = match_elements(virt, src, elements(out))
+    if r:
+        return {'aspect': 'window-' + r[0], 'observed': r[1], 'expected': r[2]}
+    return None
+
+
 def check_from_melody(inp):
     """extracting the metric of the produced melody returns the grid: a 1 exactly on the pulses whose element
     sounds (for a melody of sounding elements: the grid itself)"""
@@ -376,7 +399,7 @@ def check_score_rhythm(inp):
     return None
 
 
-ORACLES = {'apply': check_apply, 'from_melody': check_from_melody, 'euclid': check_euclid,
+ORACLES = {'apply': check_apply, 'window': check_window, 'from_melody': check_from_melody, 'euclid': check_euclid,
            'euclidian': check_euclidian, 'algebra': check_algebra, 'score_rhythm': check_score_rhythm}
 
 
@@ -641,6 +664,8 @@ def oracle(ctx):
         if op in ('apply', 'times', 'applyfrom') and in_domain(inp):
             run_oracle(ctx, 'apply', inp, sig_apply, 'suspect')
             run_oracle(ctx, 'from_melody', inp, sig_from_melody, 'suspect')
+        elif op == 'window' and in_domain(inp):
+            run_oracle(ctx, 'window', inp, sig_apply, 'suspect')
         elif op == 'algebra' and in_domain(inp):
             run_oracle(ctx, 'algebra', inp, sig_algebra, 'suspect')
         elif op == 'euclid' and 1 <= inp['pulses'] <= inp['steps']:
@@ -686,6 +711,12 @@ def oracle(ctx):
         if it % 3 == 0:
             n = rng.choice([0, 1, -1, steps, rng.randint(-3 * steps, 3 * steps)])
             run_oracle(ctx, 'algebra', dict(inp, n=n), sig_algebra, 'algebra')
+        if it % 3 == 1:
+            # windows on the tatum grid, up to several cycles of the grid long (a chord held over several bars)
+            i0 = rng.randint(0, 2 * steps)
+            i1 = i0 + rng.choice([rng.randint(1, steps), rng.randint(steps, 4 * steps)])
+            run_oracle(ctx, 'window', dict(inp, start=str(i0 * t), end=str(i1 * t)), sig_apply,
+                       'window:' + ('>2cycles' if i1 > 2 * steps else '<=2cycles'))
         if it % 10 == 0:
             chords = [[list(x) for x in rand_melody_specs(rng, 'pitched')[0]] for _ in range(rng.randint(1, 3))]
             run_oracle(ctx, 'score_rhythm', dict(inp, chords=chords), sig_score_rhythm, 'score_rhythm')
